@@ -60,8 +60,11 @@ type known struct {
 }
 
 func loadKnown() []known {
+	// KNOWN_FINDINGS.txt, one finding per line:
+	//   known: property=<id> key=<key> <what fails>      (suppresses exactly that key, prints KNOWN-FINDING)
+	//   fixed: property=<id> <commit> <what failed>       (suppresses nothing)
 	var ks []known
-	f, err := os.Open(filepath.Join(root, "KNOWN_FINDINGS.jsonl"))
+	f, err := os.Open(filepath.Join(root, "KNOWN_FINDINGS.txt"))
 	if err != nil {
 		return nil
 	}
@@ -70,13 +73,14 @@ func loadKnown() []known {
 	sc.Buffer(make([]byte, 1<<20), 1<<20)
 	for sc.Scan() {
 		line := strings.TrimSpace(sc.Text())
-		if line == "" || strings.HasPrefix(line, "#") {
+		if !strings.HasPrefix(line, "known:") {
 			continue
 		}
-		var k known
-		if json.Unmarshal([]byte(line), &k) == nil {
-			ks = append(ks, k)
+		fs := strings.Fields(strings.TrimSpace(strings.TrimPrefix(line, "known:")))
+		if len(fs) < 2 || !strings.HasPrefix(fs[0], "property=") || !strings.HasPrefix(fs[1], "key=") {
+			continue
 		}
+		ks = append(ks, known{Status: "known", Property: strings.TrimPrefix(fs[0], "property="), Key: strings.TrimPrefix(fs[1], "key="), What: strings.Join(fs[2:], " ")})
 	}
 	return ks
 }
